@@ -36,6 +36,14 @@ def programs(tier, seed):
     for e in es[:len(es):9 if tier != 'thorough' else 2]:
         t = M.pr(e)
         out.append('<view a="{{ %s }}">x{{ %s }}y</view>' % (esc(t), esc(t)))
+    # mixed text: every expression form as the first / a later part of an attribute value and of a text node
+    a_, b_, c_, y_ = ('id', 'a'), ('id', 'b'), ('id', 'c'), ('id', 'y')
+    lit = M.L('str', "'s'", 's')
+    mixed = c03.forms(a_, b_, c_) + [('bin', '+', a_, lit), ('bin', '+', lit, a_), ('bin', '+', ('bin', '+', a_, lit), b_), ('bin', '+', a_, ('bin', '+', lit, b_)),
+                                     ('bin', '+', lit, lit), lit, ('cond', a_, lit, b_), ('bin', '||', a_, lit)]
+    for e in mixed[::1 if tier == 'thorough' else 2] + mixed[-8:]:
+        t = esc(M.pr(e))
+        out.append('<view p="{{ %s }}{{ y }}" q="s{{ %s }}" r="{{ y }}{{ %s }}t">{{ %s }}{{ y }}u</view>' % (t, t, t, t))
     # stringifier-specific shapes: mixed text, text that looks like a binding, entities, quotes, childless scope elements
     out += [
         '<view a="p{{ x }}q{{ y }}" b="{{ \'a\' + b }}" c="{{ a + \'s\' }}">a{{ b }}c{{ \'d\' }}e</view>',
